@@ -1191,6 +1191,17 @@ class Interp:
             finally:
                 self.ctx.spec_hyps.pop()
             return VBool(z3.Implies(a, b))
+        if isinstance(node.func, ast.Name) and node.func.id == "eval" and len(node.args) == 1 and not node.keywords:
+            # eval of a string that is concrete on this path: evaluated as Python source in the calling environment
+            sv = self.ev(node.args[0], env)
+            src = concrete_str(sv) if isinstance(sv, VStr) else None
+            if src is None:
+                self.unsupported(node, "eval of a symbolic string")
+            try:
+                tree = ast.parse(src, mode="eval")
+            except SyntaxError as e:
+                raise PyRaise("SyntaxError", str(e), getattr(node, "lineno", None))
+            return self.ev(tree.body, env)
         fv = self.ev(node.func, env)
         args, kwargs = [], {}
         for a in node.args:
